@@ -105,6 +105,7 @@ func init() {
 		c.ruleIgnoreScope()
 		c.ruleReportGate()
 		c.ruleGateBeforeDedup("testonly", "packageonly")
+		c.rulePruneGate("immutable", "constructor", "testonly", "packageonly")
 		c.ruleIgnoreSetContains()
 		c.ruleIgnoreSetAdd()
 		c.ruleHierarchy()
@@ -122,6 +123,7 @@ func init() {
 		c.ruleIgnoreSetAdd()
 		c.ruleHierarchy()
 		c.ruleReportGate()
+		c.rulePruneGate("immutable", "constructor", "testonly", "packageonly")
 		c.ruleCodeTable()
 	}, Explanation: "exclude-checks: both inputs (flag value, environment value) are split/trimmed/upper-cased; the list of the effective configuration is added, whenever non-empty, as global tokens to the very ignore set every analyzer receives; the global phase of Contains precedes the range fast-reject and matches by exact equality against ALL/category/code of the queried code; every diagnostic passes the gate (single report sink, or detection-time gate for every site of packages reporting without a set); the hierarchy table covers every code constant."})
 
